@@ -107,6 +107,15 @@ def run(ctx):
                     okw = uses_param(what, 3)
                 ctx.ob("R-C07.1", fn, "recorded-operands-are-own-parameters#%s" % n.rsplit("::", 1)[-1], okk and okw,
                        "%s(keyspace := %s, what := %s)" % (n.rsplit("::", 1)[-1], A.tstr(ks), A.tstr(what)[:120]) + ("" if okk and okw else " — not the keyspace/key this method was asked to read"), fn.loc(b))
+                if name == "range" and n.endswith("::mark_range"):
+                    # the recorded bounds are the caller's: (start_bound(range), end_bound(range)) in that order
+                    okb = False
+                    for x in A.walk(what):
+                        if x.k == "agg" and x.a[0] == "(tuple)" and len(x.a[1]) == 2:
+                            d = dict(x.a[1])
+                            okb = any(y.k == "call" and y.a[0].endswith("::start_bound") for y in A.walk(d["0"])) and not any(y.k == "call" and y.a[0].endswith("::end_bound") for y in A.walk(d["0"])) and \
+                                any(y.k == "call" and y.a[0].endswith("::end_bound") for y in A.walk(d["1"])) and not any(y.k == "call" and y.a[0].endswith("::start_bound") for y in A.walk(d["1"]))
+                    ctx.ob("R-C07.1", fn, "recorded-range-is-the-scanned-range", okb, "mark_range((range.start_bound(), range.end_bound()))" if okb else "the range recorded for conflict detection is not (start_bound, end_bound) of the scanned range: %s" % A.tstr(what)[:140], fn.loc(b))
             elif name == "prefix" and n.endswith("::range") and "Readable" in n:
                 rng = og.of_operand(t["args"][2])
                 okp = any(x.k == "call" and x.a[0].endswith("prefix_to_range") and uses_param(x, 3) for x in A.walk(rng)) and A.tstr(og.of_operand(t["args"][1])).startswith("P2")
